@@ -847,6 +847,20 @@ def gen_case(rnd, factory_rate=0.04):
             ops.append(["lookup", stype, t])
     if rnd.random() < 0.3:
         ops = with_retype(rnd, patterns, ops)
+    if rnd.random() < 0.25:
+        # a type-specific definition whose converter rejects some texts, and a generic definition that matches the same texts:
+        # the type-specific one stays the one bound (a conversion error does not send the look-up on to later definitions)
+        word = rnd.choice(["pick", "load", "grade"])
+        a = {"alts": [[("lit", word + " "), ["field", "small", rnd.choice(["n", None])]]], "end": True}
+        b = {"alts": [[("lit", word + " "), ["field", "any", rnd.choice(["x", None])]]], "end": True}
+        patterns += [a, b]
+        t = rnd.choice(["given", "when", "then"])
+        ops.append(["use", rnd.choice(["parse", "cfparse"])])
+        first, second = ([t, len(patterns) - 2, 0], ["step", len(patterns) - 1, allf[-1]])
+        ops.append(["register"] + first)
+        ops.append(["register"] + second)
+        for v in rnd.sample(["7", "99", "100", "250", "1234"], 3):
+            ops.append(["lookup", t, word + " " + v])
     return {"patterns": patterns, "nfuncs": nfuncs, "factory_funcs": factory_funcs, "locs": locs, "ops": ops}
 
 
